@@ -69,6 +69,7 @@ def run(ctx):
     ctx.rule('PRED', 'guarantee-dependent checkers are passed on the true edge of their predicate')
     ctx.rule('NODROP', 'no validator drops or swallows a checker result')
     ctx.rule('SIBLING', 'reports reach every leaf their cumulative validator reaches')
+    _witness(ctx)
     for cfg in ctx.cfgs:
         prog = ctx.prog(cfg)
         lv = gate.Leaves(prog)
@@ -77,6 +78,30 @@ def run(ctx):
         _nodrop(ctx, cfg, prog, lv)
         _sibling(ctx, cfg, prog, lv)
     return ctx.finish(EXPLANATION)
+
+
+def _witness(ctx):
+    """(d) the fault classes of the statement cannot be planted through the public API of a live
+    triangulation, and the meaning of the TopologyGuarantee / policy predicates is pinned."""
+    import witness
+    ctx.rule('WITNESS', 'compile-fail witnesses (storage of a live triangulation is not writable through the public API) '
+                        'and const-evaluated truth tables of the policy predicates')
+    results, log = witness.run()
+    if not results or len(results) < 10:
+        ctx.ob('WITNESS', 'run', 'witness', False, 'witness crate did not build / run: ' + log[-600:])
+        return
+    for (name, kind, ok) in results:
+        ctx.ob('WITNESS', '%s|%s' % (name, kind), 'witness', ok,
+               {'compile_fail': 'the offending program is rejected with the expected error code',
+                'twin': 'the twin program (same path, legal line) compiles',
+                'const-eval': 'all truth-table assertions hold under const evaluation'}[kind] if ok else
+               'witness %s (%s) no longer behaves as expected: %s' % (name, kind, _tail(log, name)))
+    ctx.floor('witness doctests', 16, len(results) - 1, 'witness')
+
+
+def _tail(log, name):
+    i = log.find('---- src/lib.rs - ' + name)
+    return log[i:i + 700] if i >= 0 else log[-700:]
 
 
 def _in_loop(body, bb):
